@@ -212,8 +212,82 @@ Section Unmarshal.
   Variable grow : Z -> Z.
   Hypothesis Hgrow : forall c, 0 < c -> c < grow c.
 
-  (** cf. PbcmplProofs.Unmarshal_spec (any chunk reader): same result here, on the
-      bytes of the file from o on, the stream ending with a plain io.EOF *)
+  (** cf. PbcmplProofs.Unmarshal_spec (any chunk reader): same result here, from ANY position of the
+      reader, on the bytes that are left, the stream ending with a plain io.EOF; and the reader is
+      left exactly n bytes further *)
+  Theorem Unmarshal_file_spec_at f o s pos fuel :
+    0 <= o -> zlen f < 2^63 - 1 -> bytes_ok f -> SIO.RR o s pos -> (length f + 2 <= fuel)%nat ->
+    exists n ver err m s' left,
+      Unmarshal dec (fread_r f) grow fuel s = Some (n, ver, err, m, s')
+      /\ spec_Unmarshal dec EEOF (rem f o pos) t_eof = (n, ver, err, m, left)
+      /\ SIO.RR o s' (pos + n) /\ left = rem f o (pos + n).
+  Proof.
+    intros Ho Hf Hb HR0 Hfuel. pose proof HR0 as (_ & _ & _ & Hpos & _).
+    set (st := rem f o pos).
+    assert (Hsb : bytes_ok st) by (apply PH.bytes_ok_skipn; assumption).
+    assert (Hsl : zlen st <= zlen f) by (unfold st, rem, zlen; rewrite skipn_length; lia).
+    destruct (ReadFull_file f o Ho Hf s pos 32 fuel HR0 ltac:(lia) ltac:(lia))
+      as (s1 & HRF & HR1).
+    fold st in HRF, HR1.
+    unfold Unmarshal, ReadHeader, fixedSize, spec_Unmarshal. rewrite HRF.
+    change (Z.to_nat 32) with 32%nat in *.
+    destruct (Z.ltb_spec (zlen st) 32) as [Hs|Hs].
+    - (* short header *)
+      do 6 eexists. split; [reflexivity|].
+      rewrite PP.firstn32_short in * by lia. rewrite PP.i64_zlen by lia.
+      split; [reflexivity|]. split; [exact HR1|].
+      assert (Hst : zlen st = Z.max 0 (zlen f - (o + pos))).
+      { unfold st, rem, zlen. rewrite skipn_length. lia. }
+      unfold rem. symmetry. apply skipn_all2. unfold zlen in *. lia.
+    - destruct (PH.header_of_stream st Hsb Hs) as (Hv & Hh & Hbs & Rh & Rb).
+      cbv beta iota zeta.
+      rewrite Hv, Hh, Hbs.
+      rewrite PP.zlen_firstn32 in * by lia.
+      change (i64 32) with 32.
+      rewrite PP.as_int64_32 by assumption.
+      set (hs := le_val (firstn 8 (skipn 16 st))) in *.
+      set (bs := le_val (firstn 8 (skipn 24 st))) in *.
+      set (rest := skipn 32 st) in *.
+      assert (Hrem1 : rem f o (pos + 32) = rest).
+      { pose proof (rem_advance f o Ho pos 32 Hpos ltac:(lia)) as H.
+        change (Z.to_nat 32) with 32%nat in H. fold st in H.
+        rewrite PP.zlen_firstn32 in H by lia. exact H. }
+      destruct (hs =? 32); cbn [negb].
+      2:{ do 6 eexists. split; [reflexivity|]. split; [reflexivity|]. split; [exact HR1|]. now rewrite Hrem1. }
+      rewrite PP.as_int64_neg by assumption.
+      destruct (Z.geb_spec bs (2 ^ 63)) as [Hbig|Hsmall].
+      { do 6 eexists. split; [reflexivity|]. split; [reflexivity|]. split; [exact HR1|]. now rewrite Hrem1. }
+      rewrite PP.as_int64_small by lia.
+      destruct (ReadAll_limited_file f o Ho Hf grow Hgrow s1 _ bs fuel HR1 ltac:(lia))
+        as (s2 & n2 & HRA & HR2).
+      { rewrite Hrem1. unfold rest. rewrite skipn_length. unfold zlen in Hsl. lia. }
+      rewrite Hrem1 in HRA, HR2. rewrite HRA. clear HRA.
+      assert (Hrl : zlen rest = zlen st - 32) by (unfold rest; apply PP.zlen_skipn32; lia).
+      assert (Hbl : zlen (firstn (Z.to_nat bs) rest) < 2 ^ 63).
+      { rewrite PIO.zlen_firstn by lia. lia. }
+      rewrite (PP.i64_zlen _ Hbl).
+      unfold t_eof at 2 3. cbn [t_with_last t_err]. rewrite andb_false_r. cbn [andb].
+      assert (Hadv : rem f o (pos + 32 + zlen (firstn (Z.to_nat bs) rest)) = skipn (Z.to_nat bs) rest).
+      { pose proof (rem_advance f o Ho (pos + 32) bs ltac:(lia) ltac:(lia)) as H.
+        rewrite Hrem1 in H. exact H. }
+      destruct (Z.ltb_spec (zlen rest) bs) as [Htr|Hfull].
+      + (* truncated body *)
+        rewrite (PIO.firstn_all_z bs rest) in * by lia.
+        destruct (Z.ltb_spec (zlen rest) bs); [|lia].
+        replace (32 + zlen rest) with (zlen st) by lia.
+        unfold end_err, t_eof. cbn [t_err].
+        replace (pos + 32 + zlen rest) with (pos + zlen st) in * by lia.
+        rewrite (PIO.skipn_all_z bs rest) in Hadv by lia.
+        destruct (Z.eqb_spec (zlen rest) 0); do 6 eexists;
+          (split; [reflexivity|]; split; [reflexivity|]; split; [exact HR2|]; now rewrite Hadv).
+      + assert (Hfl : zlen (firstn (Z.to_nat bs) rest) = bs) by (rewrite PIO.zlen_firstn by lia; lia).
+        rewrite Hfl in *. rewrite Z.ltb_irrefl.
+        replace (pos + 32 + bs) with (pos + (32 + bs)) in * by lia.
+        destruct (dec (firstn (Z.to_nat bs) rest)); do 6 eexists;
+          (split; [reflexivity|]; split; [reflexivity|]; split; [exact HR2|]; now rewrite Hadv).
+  Qed.
+
+  (** from the start of AtToReader(f, o) *)
   Theorem Unmarshal_file_spec f o fuel :
     0 <= o <= 2^63 - 1 -> zlen f < 2^63 - 1 -> bytes_ok f -> (length f + 2 <= fuel)%nat ->
     exists n ver err m s' left,
@@ -223,55 +297,8 @@ Section Unmarshal.
     intros Ho Hf Hb Hfuel.
     assert (HR0 : SIO.RR o (AtToReader o) 0).
     { rewrite SIO.AtToReader_state by lia. unfold SIO.RR. cbn [rbase roff rlimit]. lia. }
-    set (s := skipn (Z.to_nat o) f).
-    assert (Hs0 : rem f o 0 = s) by (unfold rem, s; now rewrite Z.add_0_r).
-    assert (Hsb : bytes_ok s) by (apply PH.bytes_ok_skipn; assumption).
-    assert (Hsl : zlen s <= zlen f) by (unfold s, zlen; rewrite skipn_length; lia).
-    destruct (ReadFull_file f o ltac:(lia) Hf (AtToReader o) 0 32 fuel HR0 ltac:(lia) ltac:(lia))
-      as (s1 & HRF & HR1).
-    rewrite Hs0 in HRF, HR1.
-    unfold Unmarshal, ReadHeader, fixedSize, spec_Unmarshal. rewrite HRF.
-    change (Z.to_nat 32) with 32%nat in *.
-    destruct (Z.ltb_spec (zlen s) 32) as [Hs|Hs].
-    - (* short header *)
-      do 6 eexists. split; [reflexivity|].
-      rewrite PP.firstn32_short by lia. rewrite PP.i64_zlen by lia. reflexivity.
-    - destruct (PH.header_of_stream s Hsb Hs) as (Hv & Hh & Hbs & Rh & Rb).
-      cbv beta iota zeta.
-      rewrite Hv, Hh, Hbs.
-      rewrite PP.zlen_firstn32 by lia.
-      change (i64 32) with 32.
-      rewrite PP.as_int64_32 by assumption.
-      set (hs := le_val (firstn 8 (skipn 16 s))) in *.
-      set (bs := le_val (firstn 8 (skipn 24 s))) in *.
-      set (rest := skipn 32 s) in *.
-      destruct (hs =? 32); cbn [negb].
-      2:{ do 6 eexists. split; reflexivity. }
-      rewrite PP.as_int64_neg by assumption.
-      destruct (Z.geb_spec bs (2 ^ 63)) as [Hbig|Hsmall].
-      { do 6 eexists. split; reflexivity. }
-      rewrite PP.as_int64_small by lia.
-      assert (Hrem1 : rem f o (0 + zlen (firstn 32 s)) = rest).
-      { rewrite <- Hs0. change 32%nat with (Z.to_nat 32).
-        rewrite (rem_advance f o ltac:(lia) 0 32) by lia. now rewrite Hs0. }
-      destruct (ReadAll_limited_file f o ltac:(lia) Hf grow Hgrow s1 _ bs fuel HR1 ltac:(lia))
-        as (s2 & n2 & HRA & HR2).
-      { rewrite Hrem1. unfold rest. rewrite skipn_length. unfold zlen in Hsl. lia. }
-      rewrite Hrem1 in HRA. rewrite HRA. clear HRA.
-      assert (Hrl : zlen rest = zlen s - 32) by (unfold rest; apply PP.zlen_skipn32; lia).
-      assert (Hbl : zlen (firstn (Z.to_nat bs) rest) < 2 ^ 63).
-      { rewrite PIO.zlen_firstn by lia. lia. }
-      rewrite (PP.i64_zlen _ Hbl).
-      unfold t_eof at 2 3. cbn [t_with_last t_err]. rewrite andb_false_r. cbn [andb].
-      destruct (Z.ltb_spec (zlen rest) bs) as [Htr|Hfull].
-      + (* truncated body *)
-        rewrite (PIO.firstn_all_z bs rest) by lia.
-        destruct (Z.ltb_spec (zlen rest) bs); [|lia].
-        replace (32 + zlen rest) with (zlen s) by lia.
-        unfold end_err, t_eof. cbn [t_err].
-        destruct (Z.eqb_spec (zlen rest) 0); do 6 eexists; split; reflexivity.
-      + assert (Hfl : zlen (firstn (Z.to_nat bs) rest) = bs) by (rewrite PIO.zlen_firstn by lia; lia).
-        rewrite Hfl. rewrite Z.ltb_irrefl.
-        destruct (dec (firstn (Z.to_nat bs) rest)); do 6 eexists; split; reflexivity.
+    destruct (Unmarshal_file_spec_at f o (AtToReader o) 0 fuel ltac:(lia) Hf Hb HR0 Hfuel)
+      as (n & ver & err & m & s' & left & HU & HS & _ & _).
+    unfold rem in HS. rewrite Z.add_0_r in HS. eauto 10.
   Qed.
 End Unmarshal.
